@@ -60,7 +60,7 @@ fn small_offset() -> i64 {
     o
 }
 
-//@H props=C01,C04 tier=quick kind=complete cap=900 domain="day offset 0, no weekday offset: all dates 1900..9999"
+//@H props=C01,C02,C04,C08 tier=quick kind=complete cap=900 domain="day offset 0, no weekday offset: all dates 1900..9999"
 #[cfg_attr(kani, kani::proof)]
 #[cfg_attr(verif_replay, test)]
 fn date_offset_apply_plain() {
